@@ -165,6 +165,9 @@ DRIVER_NOTE = (" Second tie (translator): pyhms/tree.py's run / run_step / run_m
                "(run_tree_sim), so the machine theorems are theorems about the translated code (Proofs/DriverCode.v, `*_translated_*` theorems); every recorded real run is "
                "also executed by the translated run() under vm_compute and must end in the machine's final state. Trusted there: the translator's binding tables (which python "
                "construct is which primitive effect) and its list of calls that touch no modelled state.")
+STOPS_NOTE = (" The shipped stop conditions (gsc.py: RootStopped, AllStopped, SingularProblemEvalLimitReached, FitnessEvalLimitReached, NoActiveNonrootDemes; usc.py: MetaepochLimit, "
+              "DontStop, DontRun; lsc.py: AllChildrenStopped; with DemeTree.all_demes / n_evaluations) are translated as well (coq/Gen/GenStops.v) and proved to answer, in every state "
+              "whose demes sit on configured levels, exactly the verdict the machine computes (Proofs/GenEquivStops.v); float-valued conditions stay oracles.")
 
 
 def install(g, pid, *, text, note, technique, quick, thorough, mons=None, forces=None, nontrivial=None, rule="", extra_checks=None,
@@ -198,7 +201,7 @@ def install(g, pid, *, text, note, technique, quick, thorough, mons=None, forces
     g["EXPLANATION"] = explanation or text
     g["ASSUMPTIONS"] = list(assumptions)
     g["MANIFEST"] = {"text": text + (" The same for the run() translated from the current sources (code_moment theorems)." if "driver" in front_ends and pid != "C11" else ""),
-                     "note": note + " " + COMMON_NOTE + (DRIVER_NOTE if "driver" in front_ends else ""),
+                     "note": note + " " + COMMON_NOTE + (DRIVER_NOTE if "driver" in front_ends else "") + (STOPS_NOTE if "stops" in front_ends else ""),
                      "technique": technique + ("; python-ast -> Gallina translation of tree.py and the deme run_metaepoch loops with a machine-checked simulation by the small-step machine" if "driver" in front_ends and pid != "C11" else
                                                "; static population-freshness analysis in the driver translator" if pid == "C11" else "")}
 
